@@ -4,6 +4,7 @@ import (
 	"encoding/json"
 	"fmt"
 	"os"
+	"path/filepath"
 	"regexp"
 	"runtime/debug"
 	"sort"
@@ -47,6 +48,12 @@ func main() {
 		if len(os.Args) > 2 {
 			cb, _ := json.Marshal(p.ClosuresSnapshot())
 			if err := os.WriteFile(os.Args[2], cb, 0o644); err != nil {
+				fmt.Fprintln(os.Stderr, err)
+				os.Exit(1)
+			}
+			// ... and the function descriptors (see eng/funcalias.go)
+			fb, _ := json.Marshal(p.FuncsSnapshot())
+			if err := os.WriteFile(filepath.Join(filepath.Dir(os.Args[2]), "funcs.json"), fb, 0o644); err != nil {
 				fmt.Fprintln(os.Stderr, err)
 				os.Exit(1)
 			}
